@@ -405,7 +405,29 @@ pub fn judge_files(spec: &Spec, cfg: &Cfg, h: &HirSpec, files: &Tree) -> Vec<Fin
                     if !text.contains(&call) {
                         out.push(f("C16", "", format!("{} does not call {}", ep, call)));
                     }
+                    if required.len() > 3 {
+                        let pkg = convert_case::Casing::to_case(&cfg_name(cfg), convert_case::Case::Snake);
+                        let imp = format!("use{}::request::{}::{};", pkg, o.file_name(), o.required_struct_name().as_str().to_rust_struct().0);
+                        if !text.contains(&imp) {
+                            out.push(f("C16", "", format!("{}: the required-arguments struct is not imported from the operation's module ({})", ep, imp)));
+                        }
+                    }
                     for p in &o.parameters {
+                        // an enum-typed input must be given a variant the generated enum really has
+                        if let Ty::Model(m) = &p.ty {
+                            if let Some(Record::Enum(_)) = h.schemas.get(m) {
+                                let mid = m.as_str().to_rust_struct().0;
+                                let mpath = format!("src/model/{}.rs", sanitize_filename(m));
+                                if let Some(mf) = parse(&mpath) {
+                                    if let Some(Item::Enum(en)) = mf.items.iter().find(|i| matches!(i, Item::Enum(e) if e.ident == mid)) {
+                                        let ok = en.variants.iter().any(|v| text.contains(&format!("{}::{}", mid, v.ident)));
+                                        if !ok {
+                                            out.push(f("C16", "", format!("{}: input {} of enum type {} is not given one of its variants", ep, p.name, mid)));
+                                        }
+                                    }
+                                }
+                            }
+                        }
                         let id = p.name.as_str().to_rust_ident().0;
                         if p.optional {
                             if !text.contains(&format!(".{}(", id)) {
